@@ -202,8 +202,8 @@ def k_req(ctx: Ctx, K: Kinds):
                 else:
                     bad = sorted(x for x in kd if x == DEC)
                 # an `encoded`-style flag forwarded to the callee transfers the responsibility
-                if bad and any(kw == "encoded" for kw, _v in e.kwargs):
-                    bad = []
+                if bad and "encoded" in bound and bound["encoded"] != ("const", False):
+                    bad = []        # (given by keyword or by position)
                 sites.setdefault((id(e.node), p), [e.node, f"{f[2]}({p}={show(bound[p])[:60]})", want, []])[3].append((bad, sorted(kd)))
         for node, cons, want, results in sites.values():
             ctx.instance(rule)
